@@ -1,10 +1,12 @@
 #!/bin/bash
-# self-test: every Go property's verdicts on a rename-only variant of /repo equal those on /repo
+# self-test: every Go property's verdicts on a behaviour-preserving variant of /repo (every local renamed,
+# then the sources reshaped: see checker/cmd/renamer) equal those on /repo
 cd /verif
 T=$(mktemp -d /tmp/lunar-neutral-XXXX)
 trap 'rm -rf $T' EXIT
 rsync -a --exclude=.git /repo/ $T/tree/
 ./bin/renamer -repo $T/tree proxy/src/services/lunar-engine proxy/src/services/aggregation-output-plugin
+./bin/renamer -repo $T/tree -shape eq,else,msg,inc,ord,lit,and proxy/src/services/lunar-engine proxy/src/services/aggregation-output-plugin proxy/src/libs/toolkit-core proxy/src/libs/shared-model
 mkdir -p $T/a $T/b; cp known_findings.json $T/a; cp known_findings.json $T/b
 one() { p=$1; T=$2
   ./bin/lunarcheck -p $p -repo /repo -verif $T/a >/dev/null 2>&1
